@@ -402,14 +402,15 @@ pub fn mk(id: usize, data: &[u8], racts: Vec<RAct>) -> Srw {
 }
 
 fn random_srw(rng: &mut Rng, id: usize) -> Srw {
-    let dl = rng.below(9);
-    let data = rng.bytes(dl, b"abcdefgh\n\r");
-    let n = rng.below(6);
+    let dl = if rng.chance(1, 4) { 9 + rng.below(40) } else { rng.below(9) };
+    let data = rng.bytes(dl, b"abcdefgh\n\r\x80\xff");
+    let n = rng.below(8);
     let racts = (0..n)
         .map(|_| match rng.below(10) {
             0 => RAct::Eof,
             1 => RAct::Err([2u8, 3, 4, 5, 6][rng.below(5)]),
             2 => RAct::Data(1 + rng.below(4), true),
+            3 => RAct::Data(8 + rng.below(10), false),
             _ => RAct::Data(1 + rng.below(5), false),
         })
         .collect();
@@ -428,7 +429,7 @@ fn random_srw(rng: &mut Rng, id: usize) -> Srw {
 }
 
 fn random_ops(rng: &mut Rng, writes: bool) -> Vec<AdOp> {
-    let n = 1 + rng.below(8);
+    let n = 1 + rng.below(10);
     (0..n)
         .map(|_| {
             if writes && rng.chance(1, 3) {
@@ -439,7 +440,7 @@ fn random_ops(rng: &mut Rng, writes: bool) -> Vec<AdOp> {
                     AdOp::Write(rng.bytes(l, b"XYZ\n"))
                 }
             } else {
-                AdOp::Read([0usize, 0, 1, 2, 3, 4, 8][rng.below(7)])
+                AdOp::Read([0usize, 0, 1, 2, 3, 4, 8, 9, 16, 33][rng.below(10)])
             }
         })
         .collect()
@@ -463,6 +464,22 @@ pub fn run(mode: &str, thorough: bool, seed: u64, w: &mut impl std::io::Write) {
                             n += 1;
                         }
                     }
+                }
+            }
+        }
+        // larger destinations, every error kind, short reads relative to the destination
+        let a3 = [RAct::Data(3, false), RAct::Data(20, false), RAct::Eof, RAct::Err(2), RAct::Err(3), RAct::Err(5), RAct::Data(9, true)];
+        let big: Vec<u8> = (0..40u8).map(|i| 0x41 + i % 26).collect();
+        let dests4: Vec<Vec<AdOp>> = seqs(&[16usize, 4, 33], 4).into_iter().filter(|s| s.len() == 4 || s.len() == 2).map(|s| s.into_iter().map(AdOp::Read).collect()).collect();
+        for r1 in seqs(&a3, 3) {
+            if r1.is_empty() {
+                continue;
+            }
+            for r2 in [vec![], vec![RAct::Data(3, false)], vec![RAct::Err(2), RAct::Data(17, false)]] {
+                let (s1, s2) = (mk(1, &big, r1.clone()), mk(2, b"SECONDsecondSECONDsecond", r2.clone()));
+                for ops in &dests4 {
+                    chain_line(&s1, &s2, ops, w);
+                    n += 1;
                 }
             }
         }
@@ -509,14 +526,40 @@ pub fn run(mode: &str, thorough: bool, seed: u64, w: &mut impl std::io::Write) {
                 }
             }
         }
+        // larger destinations and limits around powers of two, every error kind
+        let a3 = [RAct::Data(3, false), RAct::Data(20, false), RAct::Eof, RAct::Err(2), RAct::Err(5), RAct::Data(9, true)];
+        let big: Vec<u8> = (0..40u8).map(|i| 0x41 + i % 26).collect();
+        let dests4: Vec<Vec<AdOp>> = seqs(&[16usize, 4, 33], 4).into_iter().filter(|s| s.len() == 4 || s.len() == 2).map(|s| s.into_iter().map(AdOp::Read).collect()).collect();
+        for r in seqs(&a3, 3) {
+            let s = mk(1, &big, r.clone());
+            for limit in [8u64, 16, 17, 32, 33, (1 << 32) - 1, 1 << 32, (1 << 32) + 1, u64::MAX - 1] {
+                for ops in &dests4 {
+                    take_line(&s, limit, ops, w);
+                    n += 1;
+                }
+            }
+        }
+        // destinations and limits around 2^16 (casts / narrow integer types); the offered length is in the inner log
+        for limit in [65535u64, 65536, 65537, 70000, (1 << 32) + 5] {
+            for d in [65535usize, 65536, 65537, 70001] {
+                for r in [vec![], vec![RAct::Data(3, false)], vec![RAct::Err(2)], vec![RAct::Data(70000, true)]] {
+                    let s = mk(1, &big, r);
+                    take_line(&s, limit, &[AdOp::Read(d), AdOp::Read(4)], w);
+                    n += 1;
+                }
+            }
+        }
         let cases = if thorough { 40000 } else { 4000 };
         for _ in 0..cases {
             let s = random_srw(&mut rng, 1);
             let ops = random_ops(&mut rng, true);
-            let limit = match rng.below(6) {
+            let limit = match rng.below(10) {
                 0 => 0,
                 1 => u64::MAX,
                 2 => u64::MAX - 1,
+                3 => (1u64 << 32) + rng.below(3) as u64,
+                4 => (1u64 << 32) - 1,
+                5 => 9 + rng.below(30) as u64,
                 _ => rng.below(10) as u64,
             };
             take_line(&s, limit, &ops, w);
